@@ -17,7 +17,7 @@ use bytes::Bytes;
 use rustic_core::repofile::{FileType, SnapshotFile};
 use rustic_core::{
     BackupOptions, BytesList, CheckOptions, ConfigOptions, Id, PruneOptions, ReadBackend, Repository, RepositoryBackends,
-    RepositoryOptions, WriteBackend,
+    WriteBackend,
 };
 
 use super::c20::{data_of, digest};
@@ -180,18 +180,115 @@ fn repair(items: &str) -> String {
     format!("{};hot[{}]cold[{}]", if res.is_ok() { "ok" } else { "err" }, store_str(&h), store_str(&c))
 }
 
-// ---------------------------------------------------------------------------------- repository level
+// ------------------------------------------------------------------- repair of pack files (`repair_hotcold_packs`)
 
-fn tree_packs(h: &RepoHandle) -> Option<BTreeSet<Id>> {
-    let repo = h.open_with(&RepositoryOptions::default().no_cache(true)).ok()?;
-    Some(rustic_core::verif::repair_hotcold::tree_packs(&repo).ok()?.into_iter().map(|p| *p).collect())
+fn label_id(n: u64) -> Id {
+    let mut b = [0x11u8; 32];
+    b[24..32].copy_from_slice(&n.to_be_bytes());
+    Id::new(b)
 }
 
-fn check_monitor(h: &RepoHandle, what: &str) -> Option<String> {
-    let hot = h.hot.as_ref().unwrap().store();
-    let cold = h.be.store();
-    let tp = tree_packs(h)?;
-    monitor(&hot, &cold, &|id| tp.contains(id)).map(|m| format!("{m}-after-{what}"))
+/// `c16 repairp <index files> <packs>`: a real hot/cold repository whose index files (`;`-separated, each
+/// `<packs>|<packs_to_delete>`, lists `+`-separated `t<n>` / `d<n>` = pack `n` holding tree / data blobs, `-` empty) are
+/// written through the repository, pack files `n:cold|~:hot|~` put into the two stores directly; then the real
+/// `Repository::repair_hotcold_packs` on a cold-strict cold store.  Observation: the pack files of both stores.
+fn repairp(index: &str, packs: &str) -> String {
+    use rustic_core::repofile::{BlobType, IndexBlob, IndexFile, IndexPack, PackId};
+    let cold = MemBackend::named("cold");
+    let hot = MemBackend::named("hot");
+    let Ok((h, repo)) = RepoHandle::init(cold.clone(), Some(hot.clone()), &ConfigOptions::default()) else { return "err:init".into() };
+    let mut listed_tree: BTreeSet<u64> = BTreeSet::new();
+    for f in index.split(';') {
+        let Some((a, b)) = f.split_once('|') else { return "bad-op".into() };
+        let mut lists: Vec<Vec<IndexPack>> = Vec::new();
+        for l in [a, b] {
+            let mut v = Vec::new();
+            if l != "-" {
+                for tok in l.split('+') {
+                    let (Some(k), Ok(n)) = (tok.chars().next().filter(|c| *c == 't' || *c == 'd'), tok.get(1..).unwrap_or("").parse::<u64>()) else {
+                        return "bad-op".into();
+                    };
+                    if k == 't' {
+                        _ = listed_tree.insert(n);
+                    }
+                    let tpe = if k == 't' { BlobType::Tree } else { BlobType::Data };
+                    let blob = |i: u8| {
+                        let mut id = [i; 32];
+                        id[8..16].copy_from_slice(&n.to_be_bytes());
+                        let o = serde_json::json!({ "id": Id::new(id).to_hex().as_str(), "type": if k == 't' { "tree" } else { "data" }, "offset": u32::from(i) * 40, "length": 40 });
+                        serde_json::from_value::<IndexBlob>(o).expect("index blob json")
+                    };
+                    let _ = tpe;
+                    v.push(IndexPack { id: PackId::from(label_id(n)), blobs: vec![blob(0), blob(1)], time: None, size: None });
+                }
+            }
+            lists.push(v);
+        }
+        let mut file = IndexFile::default();
+        file.packs_to_delete = lists.pop().unwrap();
+        file.packs = lists.pop().unwrap();
+        if rustic_core::verif::repository::save_file(&repo, &file).is_err() {
+            return "oracle-fail:save-index".into();
+        }
+    }
+    let mut labels: Vec<u64> = Vec::new();
+    for it in packs.split(';') {
+        let f: Vec<&str> = it.split(':').collect();
+        let [n, c, ht] = f.as_slice() else { return "bad-op".into() };
+        let Ok(n) = n.parse::<u64>() else { return "bad-op".into() };
+        if labels.contains(&n) {
+            return "bad-op".into();
+        }
+        labels.push(n);
+        for (tok, be) in [(c, &cold), (ht, &hot)] {
+            if **tok != *"~" {
+                let Some(d) = data_of(tok) else { return "bad-op".into() };
+                be.put_raw(FileType::Pack, label_id(n), Bytes::from(d));
+            }
+        }
+    }
+    let cold_before = cold.store();
+    cold.set_cold(true);
+    cold.clear_log();
+    let Ok(repo) = h.open() else { return "err:open".into() };
+    let res = repo.repair_hotcold_packs(false);
+    let (hs, cs) = (hot.store(), cold.store());
+    for (k, v) in &cold_before {
+        if cs.get(k) != Some(v) {
+            return "oracle-fail:repair-changed-a-cold-file".into();
+        }
+    }
+    if let Some(m) = unwarmed_cold_read(&cold) {
+        return format!("{m}-during-repair-hotcold-packs");
+    }
+    // every tree pack the index lists — under `packs` or `packs_to_delete` — and the cold store holds is in the hot store
+    for n in &listed_tree {
+        if let Some(c) = cs.get(&(4, label_id(*n))) {
+            match hs.get(&(4, label_id(*n))) {
+                Some(x) if x.len() == c.len() => {}
+                _ => return "oracle-fail:listed-tree-pack-not-recreated-in-hot".into(),
+            }
+        }
+    }
+    let show = |st: &Store| -> String {
+        let mut v: Vec<String> = labels.iter().filter_map(|n| st.get(&(4, label_id(*n))).map(|b| format!("{n}:{}", digest(b)))).collect();
+        v.sort();
+        if v.is_empty() { "-".into() } else { v.join("+") }
+    };
+    format!("{};hot[{}]cold[{}]", if res.is_ok() { "ok" } else { "err" }, show(&hs), show(&cs))
+}
+
+// ---------------------------------------------------------------------------------- repository level
+
+/// The tree packs of the repository as the COLD STORE saw them being written (`write_bytes(Pack, id, cacheable = true)`),
+/// accumulated over the whole history — independent of the index files and of `get_tree_packs` (which the repair under
+/// test uses itself to decide what to copy).
+fn harvest_tree_packs(cold: &MemBackend, tree: &mut BTreeSet<Id>) {
+    for op in cold.log() {
+        if op.write && op.applied && op.tpe == FileType::Pack && op.cacheable {
+            _ = tree.insert(op.id);
+        }
+    }
 }
 
 fn unwarmed_cold_read(cold: &MemBackend) -> Option<&'static str> {
@@ -204,27 +301,65 @@ fn unwarmed_cold_read(cold: &MemBackend) -> Option<&'static str> {
     None
 }
 
+const REPO_CHUNK: usize = 4096;
+
+/// Step letters of a repository-level history:
+///   b backup · f forget all but the newest · F forget one random snapshot (never the last one) ·
+///   p prune with instant_delete · m prune that only MARKS packs (default keep_delete 23h: unused / repacked packs stay in the
+///   cold store, listed under `packs_to_delete`) · k prune with keep_delete = 0 (deletes marked packs) · i repair index ·
+///   x a random subset of the hot files is lost, then repair hotcold (+ packs) · X the whole hot store (all but the config
+///   file) is lost, then repair
+const STEP_LETTERS: &str = "bfFpmkixX";
+
+fn random_steps(rng: &mut Rng) -> String {
+    let n = 4 + rng.below(4);
+    // the first command is a backup (commands on an empty repository are covered by the later steps of other runs)
+    let mut v = vec!["b"];
+    for _ in 1..n {
+        v.push(*rng.pick(&["b", "b", "b", "b", "f", "F", "p", "m", "m", "k", "i", "x", "X"]));
+    }
+    v.join(",")
+}
+
 pub fn repo_level(seed: u64, read_data_check: bool) -> String {
+    let mut rng = Rng::new(seed);
+    let steps = random_steps(&mut rng);
+    if std::env::var_os("VERIF_C16_SHOW_STEPS").is_some() {
+        eprintln!("c16 repo {seed}: steps {steps}");
+    }
+    repo_hist(&steps, rng.next(), read_data_check)
+}
+
+pub fn repo_hist(steps: &str, seed: u64, read_data_check: bool) -> String {
+    let steps: Vec<char> = match steps.split(',').map(|s| s.chars().next().filter(|c| s.len() == 1 && STEP_LETTERS.contains(*c))).collect::<Option<Vec<_>>>() {
+        Some(v) if !v.is_empty() => v,
+        _ => return "bad-op".into(),
+    };
     let mut rng = Rng::new(seed);
     let cold = MemBackend::named("cold");
     let hot = MemBackend::named("hot");
-    let Ok((h, _)) = RepoHandle::init(cold.clone(), Some(hot.clone()), &ConfigOptions::default()) else { return "err:init".into() };
+    // fixed-size chunks of 4 KiB: a 70 kB file is 18 blobs of one data pack (restore over partially matching files)
+    let cfg = ConfigOptions::default().set_chunker(rustic_core::repofile::Chunker::FixedSize).set_chunk_size(bytesize::ByteSize(REPO_CHUNK as u64));
+    let Ok((h, _)) = RepoHandle::init(cold.clone(), Some(hot.clone()), &cfg) else { return "err:init".into() };
+    let mut tree: BTreeSet<Id> = BTreeSet::new();
+    harvest_tree_packs(&cold, &mut tree);
     // from now on the cold store refuses reads of packs that were not warmed up
     cold.set_cold(true);
-    let opts = RepositoryOptions::default().no_cache(true);
+    let opts = RepoHandle::default_opts();
     let mut sources: Vec<(Id, MemSource)> = Vec::new();
-    let steps = 4 + rng.below(4);
-    for step in 0..steps {
+    for (step, kind) in steps.iter().enumerate() {
         let Ok(repo) = h.open_with(&opts) else { return format!("oracle-fail:open-step{step}") };
         let what;
         cold.clear_log();
-        match rng.below(7) {
-            0 | 1 | 2 => {
+        match kind {
+            'b' => {
                 what = "backup";
                 let mut entries = Vec::new();
+                // different trees in different backups: directory and file names depend on the step
                 for i in 0..1 + rng.below(4) {
-                    let len = *rng.pick(&[0usize, 10, 3000, 70_000]);
-                    let mut e = SrcEntry::file(&[format!("d{}", i % 2).as_bytes(), format!("f{i}").as_bytes()], &rng.bytes(len));
+                    let len = *rng.pick(&[0usize, 10, 3000, 9000, 70_000]);
+                    let dir = format!("d{}", if rng.chance(1, 2) { i % 2 } else { step as u64 });
+                    let mut e = SrcEntry::file(&[dir.as_bytes(), format!("f{i}").as_bytes()], &rng.bytes(len));
                     e.mtime_s += 100 * (step as i64 + 1) + i as i64;
                     e.ctime_s = e.mtime_s;
                     entries.push(e);
@@ -236,30 +371,44 @@ pub fn repo_level(seed: u64, read_data_check: bool) -> String {
                     Err(_) => return format!("oracle-fail:backup-step{step}"),
                 }
             }
-            3 if sources.len() > 1 => {
+            'f' | 'F' => {
                 what = "forget";
                 let Ok(mut snaps) = repo.get_all_snapshots() else { return format!("oracle-fail:snapshots-step{step}") };
                 snaps.sort_by_key(|s| s.time.clone());
-                _ = snaps.pop();
-                let ids: Vec<_> = snaps.iter().map(|s| s.id).collect();
-                if repo.delete_snapshots(&ids).is_err() {
-                    return format!("oracle-fail:forget-step{step}");
+                if snaps.len() > 1 {
+                    if *kind == 'f' {
+                        _ = snaps.pop();
+                    } else {
+                        let i = rng.below(snaps.len() as u64) as usize;
+                        snaps = vec![snaps.swap_remove(i)];
+                    }
+                    let ids: Vec<_> = snaps.iter().map(|s| s.id).collect();
+                    if repo.delete_snapshots(&ids).is_err() {
+                        return format!("oracle-fail:forget-step{step}");
+                    }
+                    sources.retain(|(id, _)| !ids.iter().any(|x| **x == *id));
                 }
-                sources.retain(|(id, _)| !ids.iter().any(|x| **x == *id));
             }
-            4 => {
-                what = "prune";
+            'p' | 'm' | 'k' => {
+                what = match kind {
+                    'p' => "prune",
+                    'm' => "prune-marking",
+                    _ => "prune-keep-delete-0",
+                };
                 // repack everything that can be repacked: reads data packs from the cold store
                 // (on a hot/cold repository `repack_cacheable_only` defaults to true: data packs would never be repacked and
                 // the cold store never read; switch it off in most runs)
-                let popts = PruneOptions::default().repack_all(rng.chance(2, 3)).instant_delete(true).repack_cacheable_only(!rng.chance(3, 4));
+                let mut popts = PruneOptions::default().repack_all(rng.chance(2, 3)).instant_delete(*kind == 'p').repack_cacheable_only(!rng.chance(3, 4));
+                if *kind == 'k' {
+                    popts.keep_delete = rustic_core::jiff::Span::new();
+                }
                 let Ok(plan) = repo.prune_plan(&popts) else { return format!("oracle-fail:prune-plan-step{step}") };
                 cold.inner.lock().unwrap().warm.clear();
                 if repo.prune(&popts, plan).is_err() {
-                    return format!("oracle-fail:prune-fails-on-cold-strict-store-step{step}");
+                    return format!("oracle-fail:{what}-fails-on-cold-strict-store-step{step}");
                 }
             }
-            5 => {
+            'i' => {
                 what = "repair-index";
                 // read_all: the header of every pack is read from the cold store (ranged reads with cacheable = false)
                 let ropts = rustic_core::RepairIndexOptions::default().read_all(rng.chance(2, 3));
@@ -269,11 +418,11 @@ pub fn repo_level(seed: u64, read_data_check: bool) -> String {
                 }
             }
             _ => {
-                what = "hot-damage+repair";
-                // remove a random subset of hot files (all types), then repair
+                what = if *kind == 'X' { "hot-store-lost+repair" } else { "hot-damage+repair" };
+                // lose hot files (all types but the config file): everything, or a random subset; then repair
                 let keys: Vec<(u8, Id)> = hot.store().keys().copied().collect();
                 for (t, id) in keys {
-                    if t != 0 && rng.chance(1, 3) {
+                    if t != 0 && (*kind == 'X' || rng.chance(1, 3)) {
                         hot.del_raw(FILE_TYPES[t as usize], &id);
                     }
                 }
@@ -288,8 +437,10 @@ pub fn repo_level(seed: u64, read_data_check: bool) -> String {
                 }
             }
         }
-        if let Some(m) = check_monitor(&h, what) {
-            return m;
+        harvest_tree_packs(&cold, &mut tree);
+        // hot ⊇ cold byte-identically on keys / snapshots / index files / tree packs (also those only marked for deletion)
+        if let Some(m) = monitor(&hot.store(), &cold.store(), &|id| tree.contains(id)) {
+            return format!("{m}-after-{what}");
         }
         // every pack read that reached the cold store during the command was requested to be warmed up (by that command)
         if let Some(m) = unwarmed_cold_read(&cold) {
@@ -311,7 +462,7 @@ pub fn repo_level(seed: u64, read_data_check: bool) -> String {
         }
     }
     // read-back of every snapshot (dump reads data packs from the cold store: must be warmed up by the caller — `dump`
-    // has no warm-up of its own, so warm everything here) and a real restore (which must warm up by itself)
+    // has no warm-up of its own, so warm everything here) and real restores (which must warm up by themselves)
     let Ok(repo) = h.open_with(&opts) else { return "oracle-fail:reopen".into() };
     let Ok(repo) = repo.to_indexed() else { return "oracle-fail:index".into() };
     let Ok(snaps) = repo.get_all_snapshots() else { return "oracle-fail:snapshots".into() };
@@ -320,31 +471,58 @@ pub fn repo_level(seed: u64, read_data_check: bool) -> String {
     }
     for s in &snaps {
         let Some((_, src)) = sources.iter().find(|(id, _)| *id == *s.id) else { return "oracle-fail:unknown-snapshot".into() };
-        // restore into a tempdir on a cold store with nothing warmed up
-        cold.inner.lock().unwrap().warm.clear();
-        cold.clear_log();
         let tmp = tempfile::tempdir().expect("tempdir");
         let dest = tmp.path().join("dest");
-        if let Some(e) = crate::dispatch::c16::restore_to(&repo, s, &dest) {
-            return format!("oracle-fail:restore-{e}");
-        }
-        // every pack read from the cold store was requested to be warmed up before
-        {
-            let g = cold.inner.lock().unwrap();
-            for (t, id, _) in &g.reads {
-                if *t == FileType::Pack && !g.warm_log.iter().any(|(wt, wid)| *wt == FileType::Pack && wid == id) {
-                    return "oracle-fail:cold-pack-read-without-warm-up-request".into();
+        // round 0: restore into a fresh directory; round 1: restore OVER the result after mutating it (same-size files whose
+        // first chunk is intact and a later chunk of the same pack is not, first chunk modified, shorter, removed, untouched):
+        // blobs found in the existing file are not read from the pack, all others must be — after a warm-up of their pack
+        for round in 0..2 {
+            if round == 1 {
+                for e in &src.entries {
+                    let crate::repo::SrcKind::File(c) = &e.kind else { continue };
+                    let p = path_in(&dest, e);
+                    let nchunks = c.len().div_ceil(REPO_CHUNK);
+                    let mut d = c.clone();
+                    match rng.below(6) {
+                        0 | 1 | 2 if nchunks > 1 => {
+                            // first chunk intact, 1.. later chunks modified
+                            for _ in 0..1 + rng.below(3) {
+                                let at = REPO_CHUNK + rng.below((c.len() - REPO_CHUNK) as u64) as usize;
+                                d[at] ^= 0x5a;
+                            }
+                        }
+                        3 if !c.is_empty() => d[rng.below(c.len().min(REPO_CHUNK) as u64) as usize] ^= 0x5a,
+                        4 => d.truncate(c.len() / 2),
+                        5 => {
+                            _ = std::fs::remove_file(&p);
+                            continue;
+                        }
+                        _ => continue,
+                    }
+                    if std::fs::write(&p, &d).is_err() {
+                        return "oracle-fail:cannot-mutate-destination".into();
+                    }
+                    // restore sets the snapshot's mtime; make sure the mutated file is not accepted by size + mtime
+                    if let Ok(f) = std::fs::File::options().write(true).open(&p) {
+                        _ = f.set_modified(std::time::UNIX_EPOCH + std::time::Duration::from_secs(1_500_000_000));
+                    }
                 }
             }
-        }
-        for e in &src.entries {
-            if let crate::repo::SrcKind::File(c) = &e.kind {
-                let mut p = dest.clone();
-                for comp in &e.path {
-                    p.push(String::from_utf8_lossy(comp).to_string());
-                }
-                if std::fs::read(&p).ok().as_deref() != Some(c.as_slice()) {
-                    return "oracle-fail:restored-content-differs".into();
+            // a cold store with nothing warmed up
+            cold.inner.lock().unwrap().warm.clear();
+            cold.clear_log();
+            if let Some(e) = crate::dispatch::c16::restore_to(&repo, s, &dest) {
+                return format!("oracle-fail:restore-{e}{}", if round == 1 { "-over-existing-files" } else { "" });
+            }
+            // every pack read from the cold store was requested to be warmed up before
+            if let Some(m) = unwarmed_cold_read(&cold) {
+                return format!("{m}-during-restore{}", if round == 1 { "-over-existing-files" } else { "" });
+            }
+            for e in &src.entries {
+                if let crate::repo::SrcKind::File(c) = &e.kind {
+                    if std::fs::read(path_in(&dest, e)).ok().as_deref() != Some(c.as_slice()) {
+                        return format!("oracle-fail:restored-content-differs{}", if round == 1 { "-over-existing-files" } else { "" });
+                    }
                 }
             }
         }
@@ -357,6 +535,14 @@ pub fn repo_level(seed: u64, read_data_check: bool) -> String {
         }
     }
     "ok".into()
+}
+
+fn path_in(dest: &std::path::Path, e: &SrcEntry) -> PathBuf {
+    let mut p = dest.to_path_buf();
+    for comp in &e.path {
+        p.push(String::from_utf8_lossy(comp).to_string());
+    }
+    p
 }
 
 /// Real restore of a snapshot into `dest` (fresh directory).  `None` = fine.
@@ -393,7 +579,9 @@ pub fn exec(t: &[&str]) -> String {
     guarded(move || match t.iter().map(String::as_str).collect::<Vec<_>>().as_slice() {
         ["hist", steps] => hist(steps),
         ["repair", items] => repair(items),
+        ["repairp", index, packs] => repairp(index, packs),
         ["repo", seed] => seed.parse::<u64>().map_or("bad-op".into(), |s| repo_level(s, false)),
+        ["repo-hist", steps, seed] => seed.parse::<u64>().map_or("bad-op".into(), |s| repo_hist(steps, s, false)),
         ["repo-read-data", seed] => seed.parse::<u64>().map_or("bad-op".into(), |s| repo_level(s, true)),
         _ => "bad-op".into(),
     })
@@ -457,7 +645,7 @@ pub fn generate(thorough: bool, rng: &mut Rng, ops: &mut Vec<String>, stats: &mu
         steps.push("o".into());
         ops.push(format!("c16 hist {}", steps.join(";")));
     }
-    let n_rep = if thorough { 3000 } else { 400 };
+    let n_rep = if thorough { 6000 } else { 400 };
     for _ in 0..n_rep {
         let n = rng.range(1, 8);
         let mut items = Vec::new();
@@ -496,10 +684,80 @@ pub fn generate(thorough: bool, rng: &mut Rng, ops: &mut Vec<String>, stats: &mu
         }
         ops.push(format!("c16 repair {}", items.join(";")));
     }
-    let n_repo = if thorough { 80 } else { 8 };
+    // repair of pack files: index files listing packs under `packs` / `packs_to_delete` (tree or data), pack files
+    // missing in hot / hot-only / truncated / in sync / not listed at all
+    let n_repp = if thorough { 5000 } else { 150 };
+    for _ in 0..n_repp {
+        let np = rng.range(1, 7);
+        // kind of each pack label (consistent over all index files, except for an occasional contradicting listing)
+        let kinds: Vec<char> = (0..np).map(|_| if rng.chance(3, 5) { 't' } else { 'd' }).collect();
+        let nf = rng.range(1, 3) as usize;
+        let mut files: Vec<(Vec<String>, Vec<String>)> = vec![(vec![], vec![]); nf];
+        for n in 0..np as usize {
+            let k = if rng.chance(1, 12) { if kinds[n] == 't' { 'd' } else { 't' } } else { kinds[n] };
+            match rng.below(8) {
+                0 => stats.hit("repairp.unlisted"),
+                1 | 2 | 3 => {
+                    stats.hit(format!("repairp.listed-packs.{k}"));
+                    let f = rng.below(nf as u64) as usize;
+                    files[f].0.push(format!("{k}{n}"));
+                }
+                4 | 5 | 6 => {
+                    stats.hit(format!("repairp.marked-for-deletion.{k}"));
+                    let f = rng.below(nf as u64) as usize;
+                    files[f].1.push(format!("{k}{n}"));
+                }
+                _ => {
+                    stats.hit("repairp.listed-twice");
+                    let (f, g) = (rng.below(nf as u64) as usize, rng.below(nf as u64) as usize);
+                    files[f].0.push(format!("{k}{n}"));
+                    files[g].1.push(format!("{kinds}{n}", kinds = kinds[n]));
+                }
+            }
+        }
+        let mut items = Vec::new();
+        for n in 0..np {
+            let len = rng.range(1, 40) as usize;
+            let d = hex(&rng.bytes(len));
+            let tree = kinds[n as usize] == 't';
+            // data packs are normally not in the hot store at all
+            items.push(match rng.below(if tree { 6 } else { 9 }) {
+                0 | 1 => format!("{n}:{d}:~"),
+                2 => format!("{n}:{d}:{}", hex(&crate::util::unhex(&d).unwrap()[..len / 2])),
+                3 => format!("{n}:{d}:{d}"),
+                4 => format!("{n}:~:{d}"),
+                5 => format!("{n}:{d}:{d}00"),
+                _ => format!("{n}:{d}:~"),
+            });
+        }
+        let j = |v: &Vec<String>| if v.is_empty() { "-".to_string() } else { v.join("+") };
+        ops.push(format!("c16 repairp {} {}", files.iter().map(|(a, b)| format!("{}|{}", j(a), j(b))).collect::<Vec<_>>().join(";"), items.join(";")));
+    }
+    let n_repo = if thorough { 1000 } else { 24 };
     for _ in 0..n_repo {
         stats.hit("repo-level");
         ops.push(format!("c16 repo {}", rng.below(1 << 32)));
+    }
+    // directed histories: several backups with different trees, forget, a prune that only MARKS packs (tree packs end up
+    // under `packs_to_delete`, still in both stores), then the hot store is lost (completely / partly) and repaired;
+    // afterwards more commands on the repaired repository (deleting / recovering the marked packs, repair index, ...)
+    let n_hist = if thorough { 1000 } else { 24 };
+    for k in 0..n_hist {
+        let mut st: Vec<&str> = Vec::new();
+        for _ in 0..2 + rng.below(2) {
+            st.push("b");
+        }
+        st.push(*rng.pick(&["f", "f", "F"]));
+        st.push("m");
+        if rng.chance(1, 3) {
+            st.push(*rng.pick(&["b", "i", "m"]));
+        }
+        st.push(if k % 2 == 0 { "X" } else { "x" });
+        for _ in 0..rng.below(3) {
+            st.push(*rng.pick(&["b", "k", "p", "m", "i", "x", "f"]));
+        }
+        stats.hit("repo-hist.marked-packs-then-hot-loss");
+        ops.push(format!("c16 repo-hist {} {}", st.join(","), rng.below(1 << 32)));
     }
     // DESIGN §7 #15 (known finding): check --read-data on a warmed-up hot/cold repository
     stats.hit("repo-level.read-data");
